@@ -159,6 +159,11 @@ def check_stream(ctx, pieces, thr, cuts, case):
         if thr is not None and (e - s) > thr:
             ctx.count("valid_longer_than_threshold_not_demanded")
             continue
+        if any(a < s and e <= b for (a, b, j) in delivered_spans):
+            # junk around it happened to form a genuine message that ENCLOSES this one (e.g. an unclosed oneBLOB closed
+            # later): it was consumed as part of that message's content
+            ctx.count("valid_enclosed_by_a_delivered_message_not_demanded")
+            continue
         # chunk index at which the last character has arrived
         due = next(k for k, f in enumerate(fed_after) if f >= e)
         # the delivery that discharges this obligation: a delivered message equal to this literal element, handed over
